@@ -47,4 +47,48 @@ def stressVerdict (tbl : List Access) (typ : String) : Option String :=
     | some (a, b) => some s!"the regenerated access table has unprotected conflicting accesses: {describe a} vs {describe b}"
     | none => none
 
+/-! ### Completeness of the dynamic matrix against the regenerated table
+
+The harness announces the methods its pair matrix goes through (`new matrix T m₁,m₂,…`) and the types it
+covers (`new types …`).  Every *public* entry the extractor found for such a type (exported method name, not a
+constructor / option / goroutine entry) must be among them: a public method added to a thread-safe type that
+the race detector is never pointed at is covered by the table obligation only; `checklib/props/C15.py` records the
+list in the evidence (`c15_public_methods_outside_race_matrix`), the driver does not alarm on it. -/
+
+/-- public methods exercised inside the workload of another method of the matrix -/
+def implicitlyExercised : List (String × String) :=
+  [("SegmentKeysLock", "Unlock"), ("SegmentKeysLock", "RUnlock")]
+
+def isPublicName (m : String) : Bool :=
+  !(m.toList.contains ':') && (match m.toList with | c :: _ => c.isUpper | [] => false)
+
+def unexercised (entries : List (String × String)) (typ : String) (ms : List String) : List String :=
+  (entries.filter fun e => e.1 == typ && isPublicName e.2 && !ms.contains e.2 &&
+    !implicitlyExercised.contains (typ, e.2)).map (·.2)
+
+/-- every method the matrix lists is an entry of the regenerated table -/
+def listedVerdict (entries : List (String × String)) (typ : String) (ms : List String) : Option String :=
+  match ms.find? (fun m => !hasEntry entries typ m) with
+  | some m => some s!"{typ}.{m} is not an entry of the regenerated access table"
+  | none => none
+
+/-- strict variant (not used as an alarm: adding a correctly synchronised public method is harmless) -/
+def matrixVerdict (entries : List (String × String)) (typ : String) (ms : List String) : Option String :=
+  match listedVerdict entries typ ms with
+  | some msg => some msg
+  | none =>
+    match unexercised entries typ ms with
+    | [] => none
+    | l => some s!"public methods of {typ} in the regenerated access table that the race matrix never exercises: {l}"
+
+/-- exported types with public entries and at least one table row that the matrix does not cover -/
+def uncoveredTypes (tbl : List Access) (entries : List (String × String)) (ts : List String) : List String :=
+  ((entries.filter fun e => isPublicName e.1 && isPublicName e.2 && !ts.contains e.1 &&
+      tbl.any (fun a => a.typ == e.1)).map (·.1)).eraseDups
+
+def typesVerdict (tbl : List Access) (entries : List (String × String)) (ts : List String) : Option String :=
+  match uncoveredTypes tbl entries ts with
+  | [] => none
+  | l => some s!"types with public entries in the regenerated access table that the race matrix does not cover: {l}"
+
 end Ekit.Races
